@@ -399,6 +399,8 @@ def run(ctx: RuleContext, p: Program) -> None:
     ctx.try_rule(rule_fsm_cost, p, 'FSM-COST')
     ctx.try_rule(rule_fsm_payee, p, 'FSM-PAYEE')
     ctx.try_rule(rule_slot_agree, p, 'SLOT-AGREE')
+    from . import presence
+    ctx.try_rule(presence.rule_presence_truth, p, 'PRESENCE-TRUTH')
     ctx.not_decided += ['survival of values through print and re-parse', 'value domains of each token type (C12)',
                         'other dependent groups (none documented)']
     ctx.assumptions += ['primitive models of FSM-COST: unordered_node_property get/set means present/absent component of that type; '
